@@ -41,7 +41,7 @@ MANIFEST = {
                  "step-by-step bisimulation against the real code under a deterministic scheduler",
 }
 
-BUDGET = 600
+BUDGET = 300
 _mod = None
 _variant = None
 _obs_cache = {}          # key -> observation (filled by the exploration and by impl)
@@ -247,7 +247,8 @@ def explore(cfg, bound, cap):
     """All schedules of cfg with at most `bound` pre-emptions (at most `cap` of them)."""
     out = []
     stack = [([], bound)]
-    while stack and len(out) < cap:
+    runaway = 0
+    while stack and len(out) < cap and runaway < 3:
         prefix, left = stack.pop()
         c = _case(cfg, prefix)
         o = run_case(c, True)
@@ -258,6 +259,9 @@ def explore(cfg, bound, cap):
         k = key(c)
         _obs_cache[k] = o
         out.append(c)
+        if o["outcome"] != "done" and o["outcome"] != "deadlock":
+            runaway += 1          # step budget exhausted (livelock): reported, not expanded
+            continue
         for i in range(len(prefix), len(chosen)):
             pend = o["steps"][i].split("|")[1].split(",")
             en = [int(p.split(":")[0]) for p in pend if p.endswith(":1")]
@@ -276,11 +280,16 @@ def random_walks(cfg, rng, n):
     out = []
     for _ in range(n):
         prefix = []
-        for _round in range(BUDGET):
+        for _round in range(16):
             o = run_case(_case(cfg, prefix), True)
             if o["outcome"] == "bad-schedule":
                 break
             chosen = o["chosen"]
+            if o["outcome"] not in ("done", "deadlock"):
+                c = _case(cfg, chosen)
+                _obs_cache[key(c)] = o
+                out.append(c)
+                break
             # pick a random point after the prefix and a random enabled alternative there
             pts = []
             for i in range(len(prefix), len(chosen)):
@@ -288,7 +297,7 @@ def random_walks(cfg, rng, n):
                 en = [int(p.split(":")[0]) for p in pend if p.endswith(":1")]
                 if len(en) > 1:
                     pts.append((i, en))
-            if not pts or rng.random() < 0.25:
+            if not pts or rng.random() < 0.25 or _round == 15:
                 c = _case(cfg, chosen)
                 _obs_cache[key(c)] = o
                 out.append(c)
@@ -547,8 +556,10 @@ def classify(c, io, drv):
     sig = kind
     if kind == "close-never-returns":
         blocked = [p for p in io["final"].split(",") if p]
-        pl = sorted({p.split(":")[1].split(".")[1] for p in blocked if not p.startswith("0:")})
-        mn = [p.split(":")[1].split(".")[1] for p in blocked if p.startswith("0:")]
+        pl = sorted({p.split(":")[1].split(".")[-1] for p in blocked if not p.startswith("0:")})
+        mn = [p.split(":")[1].split(".")[-1] for p in blocked if p.startswith("0:")]
+        if io["outcome"] != "deadlock":
+            mn = [str(io["outcome"])] + mn
         sig = "close-never-returns:wait=%s:main-in-%s:players-in-%s" % (
             "T" if c["wait"] else "F", "+".join(mn), "+".join(pl))
         if not c["wait"]:
@@ -594,7 +605,36 @@ def tally(eng, c, io):
         eng.count("deadlock_pending", io["final"])
 
 
-def shrink(c):
+def _request_for(c, chosen):
+    m = 0
+    script = []
+    for cmd in full_script(c):
+        if cmd[0] == "play":
+            script.append(["play", samples(m, cmd[1])])
+            m += 1
+        else:
+            script.append(cmd)
+    return {"entry": "sched", "wait": bool(c["wait"]), "fixed": variant() == "fixed", "cs": c["cs"],
+            "script": script, "schedule": chosen, "id": ID}
+
+
+def _signatures(cases):
+    """classify() of each case (impl + driver), used to keep the shrinker on ONE signature: the
+    engine only asks for 'still a spec/model mismatch', which would let a new violation drift
+    into a recorded known finding while being minimised."""
+    obs = [dict(run_case(c), variant=variant()) for c in cases]
+    outs = common.Driver().batch([_request_for(c, o["chosen"]) for c, o in zip(cases, obs)])
+    sigs = []
+    for c, o, d in zip(cases, obs, outs):
+        if "ok" not in d or o["outcome"] == "bad-schedule":
+            sigs.append(None)
+            continue
+        pr = compare(c, o, d["ok"])
+        sigs.append(classify(c, o, d["ok"]) if pr else None)
+    return sigs
+
+
+def _shrink_candidates(c):
     sc = c["script"]
     sch = c.get("schedule", [])
     # shorter schedule (the default policy continues), fewer calls, fewer samples
@@ -611,6 +651,16 @@ def shrink(c):
             yield dict(c, script=sc[:i] + [["play", cmd[1] - 1]] + sc[i + 1:], schedule=[])
     if c.get("with"):
         yield dict(c, **{"with": False, "script": sc + [["close"]]})
+
+
+def shrink(c):
+    cands = list(_shrink_candidates(c))
+    if not cands:
+        return []
+    sigs = _signatures([c] + cands)
+    if sigs[0] is None:
+        return []
+    return [k for k, s in zip(cands, sigs[1:]) if s == sigs[0]]
 
 
 def neighbours(c):
